@@ -67,7 +67,8 @@ def handleTile (inp out : Toks) : String :=
         showTiles mch, showTiles (mch.map parent), b2s (contains t u), b2s (contains u t),
         showTile msp, showTile mrmin, showTile mrmax ]
     let got := " ".intercalate out
-    if model != got then "diff " ++ model else
+    let fin (s : String) : String := if s.startsWith "propfail" || model == got then s else "diff " ++ model
+    fin <|
     match (do
       let (v, o) ← nat out
       let (qk, o) ← nat o
@@ -81,7 +82,7 @@ def handleTile (inp out : Toks) : String :=
       let (rmin, o) ← tileP o
       let (rmax, _) ← tileP o
       pure (specTile t u z2 (v == 1) qk fq par ch chp (ctu == 1) (cut == 1) sp rmin rmax)) with
-    | none => "bad output"
+    | none => if out == ["panic"] then "propfail panic" else "bad output"
     | some (some why) => "propfail " ++ why
     | some none =>
       let tag := if t.z ≤ 30 && t.x < 2^t.z && t.y < 2^t.z then (if isAncestorB t u || isAncestorB u t then "ok anc" else "ok pair") else "ok invalid"
